@@ -18,6 +18,7 @@ fn spec(cap: usize, in_peers: bool) -> ActorSpec {
         start: HookScript::default(),
         run: vec![],
         stop: HookScript::default(),
+        run_err_when_handled: None,
         in_peers,
     }
 }
